@@ -18,7 +18,7 @@ dst = Path(f"/verif/seeded/{prop}-{n}")
 wt = Path(f"/tmp/cs-{prop}-{n}")
 subprocess.run(["git", "-C", "/repo", "worktree", "remove", "--force", str(wt)], capture_output=True)
 subprocess.run(["git", "-C", "/repo", "worktree", "add", "-q", str(wt), "HEAD"], check=True)
-env = dict(os.environ, PYTHONPATH=f"{wt}/src", PYNGUIN_DANGER_AWARE="1", PYTHONHASHSEED="0")
+env = dict(os.environ, PYTHONPATH=f"{wt}/src:{wt}", PYNGUIN_DANGER_AWARE="1", PYTHONHASHSEED="0")
 meta = {"property": prop, "seed": int(n)}
 try:
     demo = src / "demo.py"
